@@ -275,7 +275,7 @@ def replay(w, ctx):
 def floors(m, tier):
     out = []
     c, cov = m['counters'], m['cover']
-    need = 8000 if tier == 'quick' else 150000
+    need = 5000 if tier == 'quick' else 120000
     if c.get('schedules_that_diverted_the_run', 0) < need:
         out.append('only %d schedules diverted a run (< %d)' % (c.get('schedules_that_diverted_the_run', 0), need))
     if c.get('sequences', 0) < (20 if tier == 'quick' else 300):
